@@ -82,11 +82,12 @@ type oracleRes struct {
 	r                                     [4]string // r00 r01 r10 r11 (exMain, exInit)
 	exec                                  map[int]bool
 	missing                               map[int]string
+	prov                                  string // "-" or "<#edges>:<unjustified f/s/g;..>" (Reach.provOK, Props/C18Ptr)
 }
 
 func parseOracle(line, id string) (*oracleRes, error) {
 	ws := strings.Split(line, " ")
-	if len(ws) != 13 || ws[0] != "res" || ws[1] != id {
+	if len(ws) != 14 || ws[0] != "res" || ws[1] != id {
 		return nil, fmt.Errorf("unexpected oracle answer %.300q", line)
 	}
 	get := func(i int, k string) string { return strings.TrimPrefix(ws[i], k+"=") }
@@ -94,6 +95,7 @@ func parseOracle(line, id string) (*oracleRes, error) {
 		widening: get(5, "widening") == "1", stable: get(11, "stable") == "1", exec: parseSet(get(10, "exec")),
 		missing: map[int]string{}}
 	r.r = [4]string{get(6, "r00"), get(7, "r01"), get(8, "r10"), get(9, "r11")}
+	r.prov = get(13, "prov")
 	if m := get(12, "missing"); m != "" {
 		for _, e := range strings.Split(m, ";") {
 			kv := strings.SplitN(e, ":", 2)
@@ -194,6 +196,41 @@ func checkProgram(rep *lib.Report, name, dir, module string, files map[string]st
 		}
 	}
 	rep.Count("monotonicity-checks")
+	// edges of the real pointer call graph (callers reachable in it, default roots) for the provenance criterion
+	// of Props/C18Ptr.ptr_reach_subset; small programs only (the criterion is list-based)
+	nEdges := 0
+	if native && state.PointerAnalysis != nil && state.PointerAnalysis.CallGraph != nil {
+		var el []string
+		seenE := map[string]bool{}
+		for f := range dataflow.CallGraphReachable(state.PointerAnalysis.CallGraph, false, false) {
+			ff, node := F.byFn[f], state.PointerAnalysis.CallGraph.Nodes[f]
+			if ff == nil || node == nil {
+				continue
+			}
+			for _, e := range node.Out {
+				if e == nil || e.Site == nil || e.Callee == nil {
+					continue
+				}
+				gf := F.byFn[e.Callee.Func]
+				si, okSite := ff.idx[e.Site]
+				if gf == nil || !okSite {
+					rep.Count("ptr-provenance:edge-outside-facts")
+					continue
+				}
+				l := fmt.Sprintf("edge %d %d %d\n", ff.id, si, gf.id)
+				if !seenE[l] {
+					seenE[l] = true
+					el = append(el, l)
+				}
+			}
+		}
+		sort.Strings(el)
+		nEdges = len(el)
+		if nEdges > 0 {
+			in = append(bytes.TrimSuffix(in, []byte("end\n")), []byte(strings.Join(el, "")+"end\n")...)
+			os.WriteFile(filepath.Join(dir, "oracle_in.txt"), in, 0o644)
+		}
+	}
 	// oracle
 	t0 = time.Now()
 	lines, err := lib.RunOracle("oracle_c18", in)
@@ -222,6 +259,34 @@ func checkProgram(rep *lib.Report, name, dir, module string, files map[string]st
 		rep.Count("inside-reach_sound-hypotheses")
 	} else {
 		rep.Count("outside-reach_sound-hypotheses")
+	}
+	// provenance criterion on the real call graph (recorded, not demanded: the demanded relation is the set
+	// inclusion below; ptr_reach_subset proves the inclusion from the criterion inside its hypotheses)
+	if nEdges > 0 {
+		kv := strings.SplitN(or.prov, ":", 2)
+		switch {
+		case len(kv) != 2 || kv[0] != fmt.Sprint(nEdges):
+			rep.Count("ptr-provenance:not-evaluated")
+		case kv[1] == "":
+			rep.Count("ptr-provenance:all-edges-justified")
+			rep.Dist["ptr-provenance:edges"] += nEdges
+		default:
+			rep.Count("ptr-provenance:unjustified-edges")
+			rep.Dist["ptr-provenance:edges"] += nEdges
+			for _, u := range strings.Split(kv[1], ";") {
+				var a, b, c int
+				why := "other"
+				if n, _ := fmt.Sscanf(u, "%d/%d/%d", &a, &b, &c); n == 3 && a < len(F.fns) && c < len(F.fns) {
+					if or.widening {
+						why = "program-with-widening"
+					}
+					if l, _ := rep.Extra["ptr_provenance_unjustified"].([]string); len(l) < 10 {
+						rep.Extra["ptr_provenance_unjustified"] = append(l, fmt.Sprintf("%s: %s -> %s (%s)", name, F.fns[a].fn.String(), F.fns[c].fn.String(), why))
+					}
+				}
+				rep.Count("ptr-provenance:unjustified:" + why)
+			}
+		}
 	}
 	// ⊇ pointer-analysis call graph reachability
 	if state.PointerAnalysis != nil && state.PointerAnalysis.CallGraph != nil {
